@@ -215,6 +215,9 @@ pub enum Case {
     /// it (its memory is free for the next one). Nothing a thread remembers about a closed pack
     /// may be served for the next.
     S6 { threads: u8, rounds: u8, seed: u32 },
+    /// `rounds` times: a fresh pack object, and `threads` threads released together on ONE compressed
+    /// cluster nobody has asked for yet (they all find it undecoded and all want its reader built)
+    S7 { threads: u8, rounds: u16, comp: Comp, seed: u32 },
 }
 
 pub struct C07;
@@ -751,7 +754,7 @@ impl Property for C07 {
     const ID: &'static str = "C07";
 
     fn rule() -> String {
-        "(S1) proptest-generated concurrent read programs: 2-16 reader threads over one opened content pack holding 48-56 lz4/lzma/zstd clusters of 4095 small blobs (more clusters than the 40 cache slots and the 8 pool threads; 5-25 decode chunks per cluster), op lists of whole reads, get_slice, streamed reads with small buffers and nested cuts; patterns {independent lists, every thread the same list, sweeps over all clusters forcing evictions while regions are held}; a seeded perturbation plan injects yields / 20us / 200us / 2ms sleeps at the cfg(jubako_verif) schedule points (before/after length publication, reader wake-up and slice, cluster cache lock, plain-reader construction). Oracle: every read returns exactly the model bytes (derived from the content index), every thread finishes. (S2) bounded exhaustive: the real SeekableDecoder over a harness-owned producer that releases chunk k only when told; every interleaving of {release chunk 1..3 in order} with {start reader r} for 2-3 readers (140 schedules for 3+3) x range triples drawn from the set of ranges whose ends sit on the chunk boundaries +-1, through get_slice and through stream reads; a step only ends when its publication / the reader's entry into the wait was observed through the hooks. Oracle: exact bytes; after the last release every reader returns within 5 s (else lost wake-up). Non-trivial = S1: at least 2 threads and a plan strength > 0 touching >40 clusters or the same contents; S2: a schedule in which at least one reader had to wait for a publication; distinct by (pattern, threads, compression, plan) / (ranges, schedule). (S3) readers that are tasks of a rayon thread pool (1-6 threads, or rayon's global pool), at least as many readers as pool threads, each first asking for a cluster nobody has decoded yet; the case itself has no timeout: a pool whose workers all wait for a decoder that cannot run is reported by the engine's blocked-forever criterion. S4 (directory side): 2..16 threads, released together by a barrier, make the first access to the entry stores and value stores of a freshly opened container through its shared storages (the store caches are filled while the others ask) and read a spread of entries, compared with the model; 6 fixed cases of 25 fresh containers each plus generated ones. S5 (hammer): 2..16 threads ask one opened pack for tiny contents 10 000..60 000 times each, runs of 1-3 reads inside a cluster then a jump to another of 24 clusters, exact bytes compared every time: windows of a few instructions in the cluster lookup are met by frequency, not by injected delays (4 fixed cases of 60 000 reads per thread plus generated ones). S6: 1..8 long-lived reader threads under which two packs holding different bytes under the same content numbers are opened, read and closed in turn (by the main thread) 10..80 times: what a thread remembers of a closed pack must not be served for the next one.".into()
+        "(S1) proptest-generated concurrent read programs: 2-16 reader threads over one opened content pack holding 48-56 lz4/lzma/zstd clusters of 4095 small blobs (more clusters than the 40 cache slots and the 8 pool threads; 5-25 decode chunks per cluster), op lists of whole reads, get_slice, streamed reads with small buffers and nested cuts; patterns {independent lists, every thread the same list, sweeps over all clusters forcing evictions while regions are held}; a seeded perturbation plan injects yields / 20us / 200us / 2ms sleeps at the cfg(jubako_verif) schedule points (before/after length publication, reader wake-up and slice, cluster cache lock, plain-reader construction). Oracle: every read returns exactly the model bytes (derived from the content index), every thread finishes. (S2) bounded exhaustive: the real SeekableDecoder over a harness-owned producer that releases chunk k only when told; every interleaving of {release chunk 1..3 in order} with {start reader r} for 2-3 readers (140 schedules for 3+3) x range triples drawn from the set of ranges whose ends sit on the chunk boundaries +-1, through get_slice and through stream reads; a step only ends when its publication / the reader's entry into the wait was observed through the hooks. Oracle: exact bytes; after the last release every reader returns within 5 s (else lost wake-up). Non-trivial = S1: at least 2 threads and a plan strength > 0 touching >40 clusters or the same contents; S2: a schedule in which at least one reader had to wait for a publication; distinct by (pattern, threads, compression, plan) / (ranges, schedule). (S3) readers that are tasks of a rayon thread pool (1-6 threads, or rayon's global pool), at least as many readers as pool threads, each first asking for a cluster nobody has decoded yet; the case itself has no timeout: a pool whose workers all wait for a decoder that cannot run is reported by the engine's blocked-forever criterion. S4 (directory side): 2..16 threads, released together by a barrier, make the first access to the entry stores and value stores of a freshly opened container through its shared storages (the store caches are filled while the others ask) and read a spread of entries, compared with the model; 6 fixed cases of 25 fresh containers each plus generated ones. S5 (hammer): 2..16 threads ask one opened pack for tiny contents 10 000..60 000 times each, runs of 1-3 reads inside a cluster then a jump to another of 24 clusters, exact bytes compared every time: windows of a few instructions in the cluster lookup are met by frequency, not by injected delays (4 fixed cases of 60 000 reads per thread plus generated ones). S6: 1..8 long-lived reader threads under which two packs holding different bytes under the same content numbers are opened, read and closed in turn (by the main thread) 10..80 times: what a thread remembers of a closed pack must not be served for the next one. S7: 500..1500 fresh pack objects per fixed case (every other one with seeded yields and short sleeps at the schedule points), 8..32 threads released together on one compressed cluster nobody has asked for yet.".into()
     }
 
     fn assumptions() -> Vec<String> {
@@ -822,6 +825,9 @@ impl Property for C07 {
     fn fixed_cases(tier: Tier) -> Vec<Case> {
         let mut out = vec![];
         // S4: 25 freshly opened containers per case, 4..16 threads released together on their stores
+        for (threads, comp) in [(32u8, Comp::Zstd(3)), (16, Comp::Lz4(3)), (8, Comp::Lzma(1))] {
+            out.push(Case::S7 { threads, rounds: if threads == 32 { 1500 } else { 500 }, comp, seed: threads as u32 });
+        }
         for threads in [1u8, 4, 8] {
             out.push(Case::S6 { threads, rounds: 80, seed: 11 * threads as u32 });
         }
@@ -877,7 +883,7 @@ impl Property for C07 {
     }
 
     fn required_classes(_tier: Tier) -> Vec<&'static str> {
-        vec!["S1", "S2", "S6:packs-reopened-under-long-lived-threads", "S5:hammer", "S4:concurrent-first-access-to-directory-stores", "S3:readers-are-rayon-workers", "S3:own-pool", "reader-waited-for-publication", "pattern:Sweep", "pattern:Same", "threads>=8", "comp:lz4", "comp:lzma", "comp:zstd", "comp:none", "touched>40-clusters"]
+        vec!["S1", "S2", "S7:first-access-to-one-cluster-by-many", "S6:packs-reopened-under-long-lived-threads", "S5:hammer", "S4:concurrent-first-access-to-directory-stores", "S3:readers-are-rayon-workers", "S3:own-pool", "reader-waited-for-publication", "pattern:Sweep", "pattern:Same", "threads>=8", "comp:lz4", "comp:lzma", "comp:zstd", "comp:none", "touched>40-clusters"]
     }
 
     fn max_shrink_iters() -> u32 {
@@ -926,6 +932,49 @@ impl Property for C07 {
                 info.evals = 2 * ntasks as u64;
                 info.nontrivial = ntasks >= (*pool_threads).max(1) as u32;
                 info.key = hash_str(&format!("S3|{comp:?}|{pool_threads}|{tasks}|{}", seed % 64));
+                Ok(info)
+            }
+            Case::S7 { threads, rounds, comp, seed } => {
+                info.class("S7:first-access-to-one-cluster-by-many");
+                let sp = s1_pack(ctx, *comp, 48)?;
+                let nthreads = (*threads as usize).clamp(2, 32);
+                let mut evals = 0u64;
+                let st = hook_state();
+                for round in 0..*rounds as u32 {
+                    // every other round with seeded yields / short sleeps at the schedule points (cluster
+                    // lookup, reader construction), the others at full speed
+                    st.plan_seed.store(*seed as u64 ^ ((round as u64) << 20), Ordering::Relaxed);
+                    st.plan_strength.store((round % 2) as u64, Ordering::Relaxed);
+                    let reader: jbk::Reader = jbk::FileSource::open(&sp.path).unwrap().into();
+                    let pack = match jbk::reader::ContentPack::new(reader) {
+                        Ok(p) => Arc::new(p),
+                        Err(e) => fail!("open-error", "{e}"),
+                    };
+                    let cl = seed.wrapping_add(round * 7) % 48;
+                    let barrier = Arc::new(std::sync::Barrier::new(nthreads));
+                    let hs: Vec<_> = (0..nthreads)
+                        .map(|t| {
+                            let pack = Arc::clone(&pack);
+                            let barrier = Arc::clone(&barrier);
+                            std::thread::spawn(move || -> Result<(), Failure> {
+                                let idx = cl * BLOBS_PER_CLUSTER + (t as u32 * 131 + round) % BLOBS_PER_CLUSTER;
+                                barrier.wait();
+                                do_read(&pack, idx, &ReadKind::Whole)
+                            })
+                        })
+                        .collect();
+                    for (t, h) in hs.into_iter().enumerate() {
+                        match h.join() {
+                            Ok(r) => r?,
+                            Err(_) => fail!("reader-panic", "S7 round {round}: reader thread {t} of {nthreads} making the first access to cluster {cl} panicked: {}", take_panic().unwrap_or_default()),
+                        }
+                        evals += 1;
+                    }
+                }
+                st.plan_strength.store(0, Ordering::Relaxed);
+                info.evals = evals.max(1);
+                info.nontrivial = true;
+                info.key = hash_str(&format!("S7|{threads}|{rounds}|{comp:?}|{}", seed % 16));
                 Ok(info)
             }
             Case::S6 { threads, rounds, seed } => {
